@@ -14,7 +14,16 @@ import (
 // slice argument: qualified name -> (argument position, bytes needed).
 var byteOrderMin = map[string][2]int{}
 
+// byteOrderAppend lists the Append helpers (they never index their argument)
+// with the number of bytes they add.
+var byteOrderAppend = map[string]int{"AppendUint16": 2, "AppendUint32": 4, "AppendUint64": 8}
+
 func init() {
+	for _, ord := range []string{"bigEndian", "littleEndian", "ByteOrder", "AppendByteOrder"} {
+		for name := range byteOrderAppend {
+			byteOrderMin["encoding/binary.("+ord+")."+name] = [2]int{0, 0}
+		}
+	}
 	for _, ord := range []string{"bigEndian", "littleEndian"} {
 		for name, n := range map[string]int{"Uint16": 2, "Uint32": 4, "Uint64": 8, "PutUint16": 2, "PutUint32": 4, "PutUint64": 8} {
 			byteOrderMin["encoding/binary.("+ord+")."+name] = [2]int{0, n}
@@ -208,7 +217,7 @@ func (b *Bounds) collect(stmt ast.Node, n ast.Node, fs FactSet, extra []*BFact) 
 		for _, a := range x.Args {
 			b.collect(stmt, a, fs, extra)
 		}
-		if _, _, need, ok := ByteOrderCall(info, x); ok && len(x.Args) > 0 {
+		if _, _, need, ok := ByteOrderCall(info, x); ok && len(x.Args) > 0 && need > 0 {
 			ob := b.newOb(stmt, x, "min-length", fs, extra)
 			env := b.EnvAt(fs, extra)
 			ln, why := b.lenLin(env, x.Args[0])
